@@ -241,14 +241,19 @@ def run_job(unit, job, cpath, workdir, tier):
         cur = gi
     cmd = ['cbmc', cur] + BASE_FLAGS + ['--json-ui', '--verbosity', '6']
     cmd += job.flags
-    if '--object-bits' not in job.flags:
-        cmd += ['--object-bits', '12']
     if job.unwind is not None:
         cmd += ['--unwind', str(job.unwind), '--unwinding-assertions']
     r.cmds.append(' '.join(cmd))
     to = job.timeout * (3 if tier == 'thorough' else 1)
     rc, out, err, w = _run(cmd, to)
     r.wall += w
+    if 'too many addressed objects' in out and '--object-bits' not in job.flags:
+        # the default of 8 object bits is much cheaper; widen only when cbmc asks for it
+        cmd += ['--object-bits', '12']
+        job.flags = job.flags + ['--object-bits', '12']
+        r.cmds.append(' '.join(cmd))
+        rc, out, err, w = _run(cmd, to)
+        r.wall += w
     r.log = out[-200000:] if len(out) > 200000 else out
     if rc == -9:
         r.reason = 'cbmc timeout after %ds' % to
@@ -331,8 +336,6 @@ def trace_for(unit, job, cpath_gb, props, workdir, timeout=900):
     """Re-run cbmc with --trace for the failed properties; return
     {prop: {'inputs': {...}, 'raw_steps': n}}"""
     cmd = ['cbmc', cpath_gb] + BASE_FLAGS + ['--json-ui', '--trace'] + job.flags
-    if '--object-bits' not in job.flags:
-        cmd += ['--object-bits', '12']
     if job.unwind is not None:
         cmd += ['--unwind', str(job.unwind), '--unwinding-assertions']
     for p in props:
